@@ -351,6 +351,10 @@ func (lc *lockCase) workerOf(gid int64) int {
 // settle waits until every running worker is parked (at a gate, on the Locker's token, or returned)
 // and reports new arrivals / returns as trace events.
 func (lc *lockCase) settle(expectCas int) bool {
+	// (the harness itself calls into the timeout package — heap length, fire-all — whose lock a wedged Cancel may hold
+	// for ever: every step runs under the call watchdog, `mon HANG` after 20 s without progress)
+	lc.ctx.R.Enter()
+	defer lc.ctx.R.Leave()
 	deadline := time.Now().Add(settleBound)
 	casSeen := func() int {
 		n := 0
@@ -511,6 +515,10 @@ func (lc *lockCase) describe() string {
 
 // check emits the observable state of the real system; the driver compares it with the model's.
 func (lc *lockCase) check() {
+	// (the harness itself calls into the timeout package — heap length, fire-all — whose lock a wedged Cancel may hold
+	// for ever: every step runs under the call watchdog, `mon HANG` after 20 s without progress)
+	lc.ctx.R.Enter()
+	defer lc.ctx.R.Leave()
 	if f := lc.store.takeForeign(); len(f) > 0 && !lc.failed {
 		lc.ctx.R.Quiet("mon MODEL-storage-calls-known", "kvsLock called Storage."+strings.Join(f, ",")+": the lock protocol model has no such step")
 	}
@@ -650,6 +658,10 @@ func (lc *lockCase) enabled(budget int) []action {
 }
 
 func (lc *lockCase) perform(a action) {
+	// (the harness itself calls into the timeout package — heap length, fire-all — whose lock a wedged Cancel may hold
+	// for ever: every step runs under the call watchdog, `mon HANG` after 20 s without progress)
+	lc.ctx.R.Enter()
+	defer lc.ctx.R.Leave()
 	switch a.kind {
 	case "call":
 		w := lc.workers[a.w]
